@@ -10,11 +10,14 @@ import (
 	"fmt"
 	"io"
 	"net"
+	"runtime"
+	"runtime/debug"
 	"sync"
 	"sync/atomic"
 	"testing"
 	"time"
 
+	"github.com/hugelgupf/p9/linux"
 	"github.com/u-root/uio/ulog"
 )
 
@@ -120,9 +123,9 @@ type vh10Srv struct {
 	dead bool
 }
 
-// net.Pipe is unbuffered: a frame nobody reads is dropped after a short while.
+// net.Pipe is unbuffered: every frame sent here has a pending call to read it; the deadline is a watchdog only.
 func (s *vh10Srv) reply(tg uint16, m message) error {
-	s.c.SetWriteDeadline(time.Now().Add(400 * time.Millisecond))
+	s.c.SetWriteDeadline(time.Now().Add(10 * time.Second))
 	return send(ulog.Null, s.c, tag(tg), m)
 }
 
@@ -170,6 +173,10 @@ func (s *vh10Srv) do(it vh10Item) {
 		if t, ok := s.tagOf(it.I); ok {
 			s.reply(t, &rread{Data: vh10Data(it.I)})
 		}
+	case "rlerror": // the call's own reply is an error message carrying a number that identifies the call
+		if t, ok := s.tagOf(it.I); ok {
+			s.reply(t, &rlerror{Error: uint32(100 + it.I)})
+		}
 	case "unknown":
 		s.reply(64999, &rread{Data: vh10Data(777)})
 	case "wrong":
@@ -177,7 +184,7 @@ func (s *vh10Srv) do(it vh10Item) {
 			s.reply(t, &rlopen{})
 		}
 	case "garbage":
-		s.c.SetWriteDeadline(time.Now().Add(400 * time.Millisecond))
+		s.c.SetWriteDeadline(time.Now().Add(10 * time.Second))
 		s.c.Write([]byte{3, 0, 0, 0, 117, 1, 0})
 		s.dead = true
 		s.c.Close()
@@ -187,7 +194,7 @@ func (s *vh10Srv) do(it vh10Item) {
 	case "short":
 		if t, ok := s.tagOf(it.I); ok {
 			b := vhFrame(byte(msgRread), t, append(vhLE32(8), vh10Data(it.I)...))
-			s.c.SetWriteDeadline(time.Now().Add(400 * time.Millisecond))
+			s.c.SetWriteDeadline(time.Now().Add(10 * time.Second))
 			s.c.Write(b[:9])
 		}
 		s.dead = true
@@ -227,6 +234,11 @@ func vh10Session(t *testing.T, o *vhOut, id int, n int, phases []vh10Phase, sub 
 		if err == nil {
 			r = "foreign"
 			if k == 8 && string(p) == string(vh10Data(i)) {
+				r = "ok"
+			}
+		} else if en, isErrno := err.(linux.Errno); isErrno && en >= 100 && en < 100+1024 {
+			r = "foreign" // an Rlerror: it must be the one sent to THIS call
+			if int(en) == 100+i {
 				r = "ok"
 			}
 		}
@@ -303,19 +315,72 @@ func vh10Session(t *testing.T, o *vhOut, id int, n int, phases []vh10Phase, sub 
 
 // ---- (d) forced schedules: a gated client transport and a raw fake server ----
 
-// vh10Gate is the client's end of the pipe: one Write can be held and then made to fail.
+// vh10Gate is the client's end of the pipe.  One Write can be held and then made to fail; the harness is told
+// (events, never clocks) when that Write has been entered, and every time a Read is entered.
 type vh10Gate struct {
 	net.Conn
-	hold int32
-	gate chan struct{}
+	hold  int32
+	gate  chan struct{}
+	held  chan uint16 // the tag of the frame whose Write is being held (sent when the Write is entered)
+	reads chan struct{} // one token per Read entered, when armed
+	armed int32
 }
 
 func (c *vh10Gate) Write(b []byte) (int, error) {
 	if atomic.CompareAndSwapInt32(&c.hold, 1, 0) {
+		var tg uint16
+		if len(b) >= 7 {
+			tg = binary.LittleEndian.Uint16(b[5:])
+		}
+		c.held <- tg
 		<-c.gate
 		return 0, errors.New("injected write failure")
 	}
 	return c.Conn.Write(b)
+}
+
+func (c *vh10Gate) Read(b []byte) (int, error) {
+	if atomic.LoadInt32(&c.armed) == 1 {
+		c.reads <- struct{}{}
+	}
+	return c.Conn.Read(b)
+}
+
+func vh10NewGate(cc net.Conn) *vh10Gate {
+	return &vh10Gate{Conn: cc, gate: make(chan struct{}), held: make(chan uint16, 1), reads: make(chan struct{}, 1024)}
+}
+
+// vh10Await waits for an event the model says must happen; the watchdog is confirmed (3 x 1 s) before "hang".
+func vh10Await(ch <-chan struct{}) bool {
+	select {
+	case <-ch:
+		return true
+	case <-time.After(4 * time.Second):
+	}
+	for k := 0; k < 3; k++ {
+		select {
+		case <-ch:
+			return true
+		case <-time.After(time.Second):
+		}
+	}
+	return false
+}
+
+func vh10Result(res chan [2]string) ([2]string, bool) {
+	select {
+	case r := <-res:
+		return r, true
+	case <-time.After(4 * time.Second):
+	}
+	for k := 0; k < 3; k++ {
+		select {
+		case r := <-res:
+			return r, true
+		case <-time.After(time.Second):
+		}
+	}
+	return [2]string{}, false
 }
 
 // vh10Guard runs f, turning a Go panic in the client into an observation.
@@ -386,45 +451,44 @@ func vh10Collect(res chan [2]string, n int) map[string]string {
 
 // vh10Race: call B holds the token; call A registers, its Write is held; the header of a reply carrying A's
 // tag arrives (lookup succeeds, B blocks reading the body); A's send fails and A withdraws; the body arrives.
-// Then B's own reply arrives.  Model trace: see "trace".
+// Then B's own reply arrives.  Every step waits for the event that ends the previous one.
 func vh10Race(t *testing.T, o *vhOut, id int) {
 	cc, sc := net.Pipe()
 	defer cc.Close()
 	defer sc.Close()
-	conn := &vh10Gate{Conn: cc, gate: make(chan struct{})}
+	conn := vh10NewGate(cc)
 	reqs := make(chan [2]uint16, 16)
 	var ho int32
 	_, f := vh10Handshake(t, conn, sc, reqs, &ho)
 	res := make(chan [2]string, 2)
+	atomic.StoreInt32(&conn.armed, 1)
 	go func() { res <- [2]string{"B", vh10Guard(f.FSync)} }()
 	var tb uint16
 	select {
 	case r := <-reqs:
 		tb = r[1]
-	case <-time.After(5 * time.Second):
+	case <-time.After(10 * time.Second):
 		t.Fatalf("C10 race: B's request did not arrive")
 	}
+	<-conn.reads // B is inside recv (it holds the token)
 	atomic.StoreInt32(&conn.hold, 1)
 	go func() { res <- [2]string{"A", vh10Guard(f.FSync)} }()
-	time.Sleep(150 * time.Millisecond) // A: tag taken, pending registered, blocked in Write
-	ta := tb + 1                        // the pool hands out the next fresh tag (B's is outstanding)
+	ta := <-conn.held // A: tag taken, pending registered (before send), blocked inside Write
 	frame := vhFrame(byte(msgRlerror), ta, vhLE32(5))
-	sc.SetWriteDeadline(time.Now().Add(3 * time.Second))
-	sc.Write(frame[:7]) // B: lookup(ta) accepts; B blocks on the body
-	time.Sleep(150 * time.Millisecond)
-	close(conn.gate) // A's send fails: A withdraws pending[ta]
-	time.Sleep(150 * time.Millisecond)
-	sc.Write(frame[7:]) // completion re-reads pending[ta]
-	time.Sleep(100 * time.Millisecond)
-	sc.SetWriteDeadline(time.Now().Add(3 * time.Second))
-	send(ulog.Null, sc, tag(tb), &rfsync{}) // B's own reply
-	got := vh10Collect(res, 2)
+	sc.SetWriteDeadline(time.Now().Add(10 * time.Second))
+	sc.Write(frame[:7]) // returns when B has read the header
+	<-conn.reads          // B has looked the tag up and is reading the body
+	close(conn.gate)      // A's send fails: A withdraws pending[ta] ...
 	out := []string{"hang", "hang"}
-	if v, ok := got["A"]; ok {
-		out[0] = v
+	if r, ok := vh10Result(res); ok && r[0] == "A" { // ... and returns
+		out[0] = r[1]
 	}
-	if v, ok := got["B"]; ok {
-		out[1] = v
+	sc.Write(frame[7:]) // completion re-reads pending[ta]
+	<-conn.reads          // B is back in recv
+	sc.SetWriteDeadline(time.Now().Add(10 * time.Second))
+	send(ulog.Null, sc, tag(tb), &rfsync{}) // B's own reply
+	if r, ok := vh10Result(res); ok && r[0] == "B" {
+		out[1] = r[1]
 	}
 	// thread 0 = A (tag 1 in the model), thread 1 = B (tag 2)
 	o.Emit(map[string]interface{}{"kind": "trace", "sub": "reply-during-failed-send", "id": id, "n": 2, "outcomes": out,
@@ -433,47 +497,116 @@ func vh10Race(t *testing.T, o *vhOut, id int) {
 }
 
 // vh10Early: call X holds the token; the server answers call B as soon as it has read the header of B's
-// request, i.e. while B is still inside send.  pending[t] is registered before send, so B gets its reply.
+// request, i.e. while B is still inside send.  pending[t] is registered before send, so B gets its reply —
+// and B must be back BEFORE anything else is sent (X is answered only afterwards).
 func vh10Early(t *testing.T, o *vhOut, id int) {
 	cc, sc := net.Pipe()
 	defer cc.Close()
 	defer sc.Close()
-	conn := &vh10Gate{Conn: cc, gate: make(chan struct{})}
+	conn := vh10NewGate(cc)
 	reqs := make(chan [2]uint16, 16)
 	var ho int32
 	_, f := vh10Handshake(t, conn, sc, reqs, &ho)
 	res := make(chan [2]string, 2)
+	atomic.StoreInt32(&conn.armed, 1)
 	go func() { res <- [2]string{"X", vh10Guard(func() error { _, err := f.Readlink(); return err })} }()
 	var tx uint16
 	select {
 	case r := <-reqs:
 		tx = r[1]
-	case <-time.After(5 * time.Second):
+	case <-time.After(10 * time.Second):
 		t.Fatalf("C10 early: X's request did not arrive")
 	}
+	<-conn.reads // X is inside recv
 	atomic.StoreInt32(&ho, 1)
 	go func() { res <- [2]string{"B", vh10Guard(f.FSync)} }()
+	out := []string{"hang", "hang"}
 	select {
 	case r := <-reqs: // header of B's Tfsync read, body (4 bytes) not yet
-		sc.SetWriteDeadline(time.Now().Add(3 * time.Second))
+		sc.SetWriteDeadline(time.Now().Add(10 * time.Second))
 		send(ulog.Null, sc, tag(r[1]), &rfsync{})
-	case <-time.After(5 * time.Second):
+	case <-time.After(10 * time.Second):
 		t.Fatalf("C10 early: B's header did not arrive")
 	}
-	time.Sleep(200 * time.Millisecond)
-	sc.SetWriteDeadline(time.Now().Add(3 * time.Second))
-	send(ulog.Null, sc, tag(tx), &rreadlink{Target: "x"})
-	got := vh10Collect(res, 2)
-	out := []string{"hang", "hang"}
-	if v, ok := got["X"]; ok {
-		out[0] = v
+	if r, ok := vh10Result(res); ok && r[0] == "B" { // B returns although no further frame arrives
+		out[1] = r[1]
 	}
-	if v, ok := got["B"]; ok {
-		out[1] = v
+	sc.SetWriteDeadline(time.Now().Add(10 * time.Second))
+	send(ulog.Null, sc, tag(tx), &rreadlink{Target: "x"})
+	if r, ok := vh10Result(res); ok && r[0] == "X" {
+		out[0] = r[1]
 	}
 	o.Emit(map[string]interface{}{"kind": "trace", "sub": "reply-before-send-returns", "id": id, "n": 2, "outcomes": out,
 		"trace": []string{"AStart 0 1 0", "ASendOk 0", "AWaitToken 0", "AStart 1 2 1", "AFrame 0 2 true", "ABody 0 true", "ASendOk 1", "AWaitDone 1",
 			"AWaitToken 0", "AFrame 0 1 true", "ABody 0 true", "AWaitDone 0"}})
+}
+
+// vh10Wake: the wake-up of a parked waiter.  X holds the token for the whole session (its reply is withheld).
+// In each round a call B is sent completely, the harness yields so that B parks in waitAndRecv (an aid in the
+// allowed direction: if B has not parked yet it must return all the same), then B's reply is sent — it is X that
+// reads it and completes B — and B must return before ANY further frame is sent.  A waiter that stops watching
+// its done channel while it queues for the token never comes back here.
+func vh10Wake(t *testing.T, o *vhOut, id int, rounds int) {
+	cc, sc := net.Pipe()
+	defer cc.Close()
+	defer sc.Close()
+	conn := vh10NewGate(cc)
+	reqs := make(chan [2]uint16, 16)
+	var ho int32
+	_, f := vh10Handshake(t, conn, sc, reqs, &ho)
+	res := make(chan [2]string, 2)
+	xres := make(chan [2]string, 1)
+	atomic.StoreInt32(&conn.armed, 1)
+	go func() { xres <- [2]string{"X", vh10Guard(func() error { _, err := f.Readlink(); return err })} }()
+	var tx uint16
+	select {
+	case r := <-reqs:
+		tx = r[1]
+	case <-time.After(10 * time.Second):
+		t.Fatalf("C10 wake: X's request did not arrive")
+	}
+	<-conn.reads // X is inside recv
+	out := []string{"hang"}
+	trace := []string{"AStart 0 1 0", "ASendOk 0", "AWaitToken 0"}
+	stuck := false
+	for k := 1; k <= rounds && !stuck; k++ {
+		go func() { res <- [2]string{"B", vh10Guard(f.FSync)} }()
+		var tb uint16
+		select {
+		case r := <-reqs:
+			tb = r[1]
+		case <-time.After(10 * time.Second):
+			t.Fatalf("C10 wake: request %d did not arrive", k)
+		}
+		for y := 0; y < 50; y++ {
+			runtime.Gosched()
+		}
+		time.Sleep(time.Duration(k%4) * time.Millisecond)
+		sc.SetWriteDeadline(time.Now().Add(10 * time.Second))
+		if k%3 == 0 {
+			send(ulog.Null, sc, tag(tb), &rlerror{Error: 5}) // an Rlerror is B's own reply too
+		} else {
+			send(ulog.Null, sc, tag(tb), &rfsync{})
+		}
+		<-conn.reads // X has completed B and is back in recv
+		r, ok := vh10Result(res)
+		if !ok {
+			out = append(out, "hang")
+			stuck = true
+		} else if k%3 == 0 && r[1] == "err" {
+			out = append(out, "ok") // the errno it was sent
+		} else {
+			out = append(out, r[1])
+		}
+		trace = append(trace, fmt.Sprintf("AStart %d 2 1", k), fmt.Sprintf("ASendOk %d", k), "AFrame 0 2 true", "ABody 0 true", fmt.Sprintf("AWaitDone %d", k), "AWaitToken 0")
+	}
+	sc.SetWriteDeadline(time.Now().Add(10 * time.Second))
+	send(ulog.Null, sc, tag(tx), &rreadlink{Target: "x"})
+	if r, ok := vh10Result(xres); ok {
+		out[0] = r[1]
+	}
+	trace = append(trace, "AFrame 0 1 true", "ABody 0 true", "AWaitDone 0")
+	o.Emit(map[string]interface{}{"kind": "trace", "sub": "wake-up-of-a-parked-waiter", "id": id, "n": len(out), "outcomes": out, "trace": trace})
 }
 
 // ---- (e) fid discipline against a scripted server ----
@@ -712,6 +845,8 @@ func vh10Perms(k int) [][]int {
 func TestVerifC10(t *testing.T) {
 	o := vhOpen(t)
 	defer o.Close()
+	// clientFile has a finalizer that sends Tclunk: no collection while scripted servers count requests
+	defer debug.SetGCPercent(debug.SetGCPercent(-1))
 	r := vhRand()
 	// (a) allocator: every disciplined sequence
 	depth := 6
@@ -739,6 +874,18 @@ func TestVerifC10(t *testing.T) {
 		}
 		return s
 	}
+	// the same with every second call answered by an Rlerror (its own reply as well)
+	mixed := func(p []int) []vh10Item {
+		var s []vh10Item
+		for _, i := range p {
+			if i%2 == 1 {
+				s = append(s, vh10Item{K: "rlerror", I: i})
+			} else {
+				s = append(s, vh10Item{K: "reply", I: i})
+			}
+		}
+		return s
+	}
 	// (b1) every reply order for batches of up to 4 (5 thorough) calls in flight, then one later call
 	maxk := 4
 	if vhThorough() {
@@ -748,14 +895,18 @@ func TestVerifC10(t *testing.T) {
 		for _, p := range vh10Perms(k) {
 			vh10Session(t, o, id, k+1, []vh10Phase{{Calls: calls(0, k), Script: replies(p)}, {Calls: calls(k, k+1), Script: replies([]int{k})}}, "perm")
 			id++
+			if k >= 2 {
+				vh10Session(t, o, id, k+1, []vh10Phase{{Calls: calls(0, k), Script: mixed(p)}, {Calls: calls(k, k+1), Script: mixed([]int{k})}}, "perm-mixed")
+				id++
+			}
 		}
 	}
 	// (b2) a fault after j of k replies, at every j, for every fault kind; then a later call
 	for _, kind := range []string{"unknown", "wrong", "garbage", "close", "short"} {
 		for k := 1; k <= 3; k++ {
 			for j := 0; j <= k; j++ {
-				if (kind == "wrong" || kind == "short") && j == k {
-					continue
+				if kind != "close" && j == k {
+					continue // no call is pending: nobody would read the frame (a socket would buffer it; see vh10Desync)
 				}
 				p := r.Perm(k)
 				s := replies(p[:j])
@@ -826,6 +977,8 @@ func TestVerifC10(t *testing.T) {
 		vh10Race(t, o, id)
 		id++
 		vh10Early(t, o, id)
+		id++
+		vh10Wake(t, o, id, 12)
 		id++
 	}
 	// (f) later calls after a frame the receiver rejected (commit 91df8ef)
